@@ -45,6 +45,18 @@ def write_baseline(prop):
     return out
 
 
+def _bounded_worker(modname, bname, tier, seed):
+    try:
+        t0 = time.time()
+        fam = importlib.import_module(modname).build()
+        b = [x for x in fam.bounded if x.name == bname][0]
+        res = dict(b.run(tier=tier, seed=seed))
+        res['suite_wall_s'] = round(time.time() - t0, 2)
+        return json.loads(json.dumps(res, default=str))
+    except Exception:
+        return {'__crash__': traceback.format_exc()}
+
+
 def registry():
     mod = importlib.import_module('contracts.registry')
     return mod.PROPS
@@ -75,6 +87,12 @@ def run_check(prop, tier='quick', seed=0, strict=False, procs=None):
     for modname in reg['families']:
         mod = importlib.import_module(modname)
         families.append((modname, mod.build()))
+
+    # bounded stand-ins run concurrently with the deductive part (own process: they use the real database)
+    import multiprocessing as _mp
+    bjobs = [(modname, b.name) for modname, fam in families for b in fam.bounded if prop in b.serves]
+    bpool = _mp.get_context('fork').Pool(1) if bjobs else None
+    basync = [bpool.apply_async(_bounded_worker, (mn, bn, tier, seed)) for mn, bn in bjobs] if bpool else []
 
     # ---- 1. deductive part: functions under contract
     jobs = []
@@ -183,13 +201,16 @@ def run_check(prop, tier='quick', seed=0, strict=False, procs=None):
                 continue
             tb = time.time()
             try:
-                res = b.run(tier=tier, seed=seed)
+                res = basync[[j[1] for j in bjobs].index(b.name)].get()
+                if isinstance(res, dict) and res.get('__crash__'):
+                    checker_defects.append('bounded check %s crashed:\n%s' % (b.name, res['__crash__']))
+                    continue
             except Exception:
                 checker_defects.append('bounded check %s crashed:\n%s' % (b.name, traceback.format_exc()))
                 continue
             res = dict(res)
             res.update(name=b.name, scope=b.scope, stands_in_for=b.stands_in_for,
-                       wall_s=round(time.time() - tb, 2))
+                       wall_s=res.get('suite_wall_s', round(time.time() - tb, 2)))
             failures = res.pop('failures', [])
             res['failures'] = len(failures)
             res['unknown_failures'] = len([f for f in failures if not f.get('known')])
@@ -198,7 +219,7 @@ def run_check(prop, tier='quick', seed=0, strict=False, procs=None):
                     res[extra] = res[extra]
             bounded_records.append(res)
             listed = {k.get('id') for k in my_known if k.get('kind') == 'bounded'}
-            for label in (res.get('failure_classes') or {}):
+            for label in list(res.get('failure_classes') or {}) + list(res.get('failure_counts') or {}):
                 for part in str(label).split('|')[-1].strip().split('+'):
                     if part in listed:
                         bounded_known_seen.add(part)
